@@ -49,11 +49,11 @@ func (in *inst) alphabet(max int, reduced bool) (ops []op, def int) {
 	hs := in.hs
 	ns := []int{0, 1, hs - 1, hs, hs + 1, max - 1, max, max + 1}
 	addls := []int{0, 1, 64}
-	es := []int{0, okFromE - 1, okFromE, 64}
+	es := []int{0, in.okE() - 1, in.okE(), in.okE() + 32}
 	if reduced {
 		ns = []int{0, 1, hs, hs + 1, max, max + 1}
 		addls = []int{0, 64}
-		es = []int{0, okFromE - 1, okFromE}
+		es = []int{0, in.okE() - 1, in.okE()}
 	}
 	def = -1
 	for _, n := range uniqSorted(ns) {
@@ -142,9 +142,6 @@ func sentinelIntact(b []byte, from int) bool {
 	return true
 }
 
-// standard instantiation inputs of the history machines (all above every minimum)
-func stdSeed() (e, n, p []byte) { return det(roleEntropy, 48), det(roleNonce, 24), det(rolePers, 11) }
-
 // tryNewState instantiates the real generator and the model with the same inputs and installs the seam.
 // A rejection by the library is returned as err (s is nil then); everything else that goes wrong is
 // reported as a violation and yields a dead state.
@@ -227,6 +224,10 @@ func (s *st) apply(o op, t *engine.T) bool {
 		addlCopy := append([]byte{}, addl...)
 		before := engine.DumpString(s.lib)
 		var err error
+		var need bool
+		if t.Guard("needreseed", func() { need = s.lib.NeedReseed() }) {
+			return false
+		}
 		if t.Guard("gen", func() { err = s.lib.Generate(out, addl) }) {
 			return false
 		}
@@ -243,6 +244,16 @@ func (s *st) apply(o op, t *engine.T) bool {
 		why := "counter"
 		if s.elapsed && in.gm {
 			why = "time"
+		}
+		// the exported gate: NeedReseed() says exactly whether the next request is refused for want of a reseed
+		// (judged after the oracle of the request itself, so that the keys of that oracle keep their precedence)
+		gensBefore := s.gens
+		gateOK := func() bool {
+			if need != (oc == drbgref.ReseedRequired) {
+				s.fail(t, "needreseed/disagrees-with-specification/"+why, "%s: %d generate calls since the last (re)seed, elapsed=%v: NeedReseed() = %v before the call, the specification says %v", o.name, gensBefore, s.elapsed, need, oc == drbgref.ReseedRequired)
+				return false
+			}
+			return true
 		}
 		switch {
 		case oc == drbgref.ReseedRequired:
@@ -267,7 +278,7 @@ func (s *st) apply(o op, t *engine.T) bool {
 				return false
 			}
 			t.Outcome("gen/refused/" + why + "/" + pos + "/" + in.tag())
-			return true
+			return gateOK()
 
 		case o.n > s.libMax:
 			// above the library's own cap: error with state untouched, or the specified bytes
@@ -277,7 +288,7 @@ func (s *st) apply(o op, t *engine.T) bool {
 					return false
 				}
 				t.Outcome("gen/above-cap/rejected/" + in.tag())
-				return true
+				return gateOK()
 			}
 			if oc == drbgref.Invalid {
 				s.fail(t, "gen/above-spec-max-accepted", "%s: accepted although the flavour delivers at most %d bytes per request; buffer %s", o.name, s.ref.MaxRequest(), engine.Hex(out))
@@ -290,7 +301,7 @@ func (s *st) apply(o op, t *engine.T) bool {
 			s.ref = next
 			s.gens++
 			t.Outcome("gen/above-cap/served/" + in.tag())
-			return true
+			return gateOK()
 
 		default:
 			if oc != drbgref.OK {
@@ -311,7 +322,7 @@ func (s *st) apply(o op, t *engine.T) bool {
 			s.ref = next
 			s.gens++
 			t.Outcome("gen/ok/" + nClass(o.n, in.hs) + "/" + aClass(o.addl) + "/" + in.tag())
-			return true
+			return gateOK()
 		}
 
 	case opReseed:
@@ -333,7 +344,7 @@ func (s *st) apply(o op, t *engine.T) bool {
 			lenClass = "empty"
 		}
 		if err != nil {
-			if o.e >= okFromE {
+			if o.e >= in.okE() {
 				s.fail(t, "reseed/spurious-error", "%s: %v", o.name, err)
 				return false
 			}
@@ -379,7 +390,7 @@ func (in *inst) machine(ops []op, prefix []int, t *engine.T) engine.Machine[*st]
 	if len(pn) > 0 {
 		name += " after " + strings.Join(pn, ";")
 	}
-	e, n, p := stdSeed()
+	e, n, p := in.stdSeed()
 	prefixDead := false
 	return engine.Machine[*st]{
 		Name: name,
